@@ -13,7 +13,8 @@ SPEC = {
         ('K-stop(exact)', 'do_stop', '.'),
         ('K-next(cut-offs, stop flag, metric wiring)', 'next', '^(cutoff:|stop:|wiring:(one-metric|metric))'),
         ('K-first(cut-offs)', 'first', '^(cutoff:|stop:|fields:dist_obs)'),
-        ("_create_start_nodes(max_dist_init goes to the spatial query; distance, projection and relative position go unchanged into the start state)", 'start_nodes', r'^start:(spatial|one-first)')],
+        ("_create_start_nodes(max_dist_init goes to the spatial query; distance, projection and relative position go unchanged into the start state)", 'start_nodes', r'^start:(spatial|one-first)'),
+        ("BaseMatcher.__init__(the thresholds are the caller's: max_dist or unbounded, max_dist_init or max_dist, log(min_prob_norm) or unbounded)", 'matcher_init', r'^init:(max_dist|min_logprob)')],
     'bounded': [
         ('cutoffs-and-nearest-points', suites.case_C05, 1500, 200000, RULE + '; ' + 'non-trivial = some candidate was cut off or the path has >= 2 states', '')],
 }
